@@ -30,11 +30,14 @@ pub struct SimMath<F: CpuLogpFunc> {
     pub inner: CpuMath<F>,
     pub log: SharedLog,
     pub events: MathLog,
+    /// scripted momentum: when non-empty, `array_gaussian` delivers the next entry instead of drawing
+    /// from the random number generator (which is then not advanced)
+    pub scripted_gaussian: Arc<Mutex<std::collections::VecDeque<Vec<f64>>>>,
 }
 
 impl<F: CpuLogpFunc> SimMath<F> {
     pub fn new(inner: CpuMath<F>, log: SharedLog, events: MathLog) -> Self {
-        SimMath { inner, log, events }
+        SimMath { inner, log, events, scripted_gaussian: Default::default() }
     }
     fn now(&self) -> u64 {
         self.log.lock().unwrap().n_evals
@@ -196,7 +199,11 @@ where
         self.inner.array_vector_dot(array1, array2)
     }
     fn array_gaussian<R: rand::Rng + ?Sized>(&mut self, rng: &mut R, dest: &mut Self::Vector, stds: &Self::Vector) {
-        self.inner.array_gaussian(rng, dest, stds);
+        let scripted = self.scripted_gaussian.lock().unwrap().pop_front();
+        match scripted {
+            Some(v) => self.inner.read_from_slice(dest, &v),
+            None => self.inner.array_gaussian(rng, dest, stds),
+        }
         let values = self.inner.box_array(dest).to_vec();
         let at_eval = self.now();
         self.events.lock().unwrap().push(MathEvent::Gaussian { at_eval, values });
